@@ -849,8 +849,12 @@ pub fn run_dec<E: MkEngine>(x: &mut Exec, init: &Value, script: &[StepRef]) -> R
                     let len = us(&st["len"]);
                     let (orig, rec) = round_data(x, &rate, k, r, sb);
                     let src: Option<&Vec<u8>> = if act == "add_original" { orig.get(idx) } else { rec.get(idx) };
+                    // a shard offered again under an index that was already accepted carries OTHER bytes: the call must
+                    // fail and must not touch what was accepted
+                    let got = &cur[if act == "add_original" { "gotO" } else { "gotR" }];
+                    let dup = got.as_array().is_some_and(|a| a.iter().any(|v| v.as_i64() == Some(util::enc(idx))));
                     match src {
-                        Some(s) if len == sb => s.clone(),
+                        Some(s) if len == sb && !dup => s.clone(),
                         _ => util::payload(x.seed, 0xBAD, idx as u64 & 0xffff, len),
                     }
                 };
@@ -1730,7 +1734,7 @@ pub fn free_dec<E: MkEngine>(x: &mut Exec, rng: &mut impl Rng, len: usize, big: 
             let l = if rng.gen_bool(0.88) { sb } else { *[0usize, 1, sb + 2, sb.saturating_sub(2), 64].choose(rng).unwrap() };
             let src = if is_rec { rec.get(idx) } else { orig.get(idx) };
             let data = match src {
-                Some(s) if l == sb => s.clone(),
+                Some(s) if l == sb && !given.contains(&idx) => s.clone(),
                 _ => util::payload(x.seed, 0xBAD, idx as u64 & 0xffff, l),
             };
             let act = if is_rec { "add_recovery" } else { "add_original" };
